@@ -99,7 +99,8 @@ func runAEOne(p *Prog, e *Eco) *aeEcoResult {
 			}
 			if os.Getenv("GVDEBUG") == "terms" {
 				var tk []string
-				for k, ti := range c.terms {
+				for _, k := range c.termKeys() {
+					ti := c.terms[k]
 					tk = append(tk, fmt.Sprintf("%s:%d pool=%v", k, ti.kind, c.pools[k]))
 				}
 				sort.Strings(tk)
